@@ -62,5 +62,7 @@ unsigned           verif_stream_hex2(void *oss);
 #ifndef VF_CLAIM
 #define VF_CLAIM 0
 #endif
-#define VCLAIM(nn, c, id) do { if (VF_CLAIM == 0 || VF_CLAIM == (nn)) verif_assert((c) ? 1 : 0, id); } while (0)
+// The condition is ALWAYS evaluated (harness steps written inside a condition happen whatever the claim); only the
+// assertion is conditional.
+#define VCLAIM(nn, c, id) do { int vf_cond_ = (c) ? 1 : 0; if (VF_CLAIM == 0 || VF_CLAIM == (nn)) verif_assert(vf_cond_, id); } while (0)
 #endif
